@@ -2038,9 +2038,6 @@ class PyCdlib:
         if rock_ridge and dr_len + rockridge.RRCERecord.length() > rockridge.ALLOWED_DR_SIZE:
             raise pycdlibexception.PyCdlibInvalidInput('Identifier is too long to fit into a Rock Ridge directory record')
 
-        if parent.rock_ridge is not None and parent.file_identifier() == b'RR_MOVED':
-            return
-
         for child in parent.children:
             if child.file_ident == name and not child.is_associated_file():
                 raise pycdlibexception.PyCdlibInvalidInput('Failed adding duplicate name to parent')
